@@ -36,7 +36,8 @@ Definition yaml_punct : list bytes :=
   [ [58]; [45]; [44]; [123]; [125]; [91]; [93]; [34]; [39]; [63]; [45;45;45]; [46;46;46] ].
 
 (* ---------- values ---------- *)
-Inductive yval := YStr (s : bytes) | YNull | YMap (l : list (bytes * yval)) | YSeq (l : list yval).
+(* [fl]: written in flow style ({..} / [..]); the reference readings do not look at it, the known classes do *)
+Inductive yval := YStr (s : bytes) | YNull | YMap (fl : bool) (l : list (bytes * yval)) | YSeq (fl : bool) (l : list yval).
 
 (* ---------- scalars ---------- *)
 Definition yquoted_inner (q : N) (text : bytes) : option bytes :=
@@ -85,22 +86,24 @@ Definition ydocs_of (kids : list (node * yden)) : option (list yval) :=
                             end) (Some []) kids.
 Fixpoint ykeys_nodup (l : list bytes) : bool :=
   match l with [] => true | k :: t => negb (existsb (beq k) t) && ykeys_nodup t end.
-(* a mapping pair: the child with field "key" is a scalar; the child with field "value", if any, is the value;
-   every other child is a token (the colon) or a comment *)
+(* a mapping pair: the first child has field "key" and is a scalar, then the colon; after it comments and at most one
+   child with field "value", the value; no other child carries one of the two fields *)
+Definition neutral_tok (kd : node * yden) : bool :=
+  match snd kd with YDTok => negb (beq (n_field (fst kd)) yf_key) && negb (beq (n_field (fst kd)) yf_value) | _ => false end.
+Fixpoint ypair_rest (rest : list (node * yden)) : option (option yval) :=
+  match rest with
+  | [] => Some None
+  | (n, YDVal v) :: t => if beq (n_field n) yf_value && forallb neutral_tok t then Some (Some v) else None
+  | kd :: t => if neutral_tok kd then ypair_rest t else None
+  end.
 Definition ypair_of (kids : list (node * yden)) : yden :=
   match kids with
   | (kn, YDVal (YStr k)) :: (cn, YDTok) :: rest =>
-      if beq (n_field kn) yf_key && kind_is yk_colon cn then
-        match rest with
-        | [] => YDPair k YNull
-        | (vn, YDVal v) :: rest' =>
-            if beq (n_field vn) yf_value && forallb (fun kd => match snd kd with YDTok => true | _ => false end) rest'
-               && forallb (fun kd => negb (beq (n_field (fst kd)) yf_key) && negb (beq (n_field (fst kd)) yf_value)) rest'
-            then YDPair k v else YDBad
-        | _ =>
-            if forallb (fun kd => match snd kd with YDTok => true | _ => false end) rest
-               && forallb (fun kd => negb (beq (n_field (fst kd)) yf_key) && negb (beq (n_field (fst kd)) yf_value)) rest
-            then YDPair k YNull else YDBad
+      if beq (n_field kn) yf_key && kind_is yk_colon cn && negb (beq (n_field cn) yf_key) && negb (beq (n_field cn) yf_value) then
+        match ypair_rest rest with
+        | Some (Some v) => YDPair k v
+        | Some None => YDPair k YNull
+        | None => YDBad
         end
       else YDBad
   | _ => YDBad
@@ -129,12 +132,12 @@ Definition denote_ystep (content kind : bytes) (sb eb : N) (missing : bool) (kid
     match yvals_of kids with Some [v] => YDVal v | _ => YDBad end
   else if beq kind yk_block_mapping || beq kind yk_flow_mapping then
     match ypairs_of kids with
-    | Some l => if ykeys_nodup (map fst l) then YDVal (YMap l) else YDBad
+    | Some l => if ykeys_nodup (map fst l) then YDVal (YMap (beq kind yk_flow_mapping) l) else YDBad
     | None => YDBad
     end
   else if beq kind yk_block_mapping_pair || beq kind yk_flow_pair then ypair_of kids
   else if beq kind yk_block_sequence || beq kind yk_flow_sequence then
-    match yvals_of kids with Some l => YDVal (YSeq l) | None => YDBad end
+    match yvals_of kids with Some l => YDVal (YSeq (beq kind yk_flow_sequence) l) | None => YDBad end
   else if beq kind yk_block_sequence_item then
     match yvals_of kids with Some [v] => YDVal v | Some [] => YDVal YNull | _ => YDBad end
   else if beq kind yk_document then
@@ -150,51 +153,137 @@ Fixpoint denote_ynode (content : bytes) (n : node) {struct n} : yden :=
 Definition denote_yaml (content : bytes) (root : node) : option yval :=
   match denote_ynode content root with YDDoc v => Some v | _ => None end.
 
-(* block style only: no flow mappings / flow sequences anywhere (the walks do not enter them: known class yaml-flow) *)
-Fixpoint block_style (n : node) : bool :=
-  let 'Node kind _ _ _ _ _ _ ch := n in
-  negb (beq kind yk_flow_mapping) && negb (beq kind yk_flow_sequence) && negb (beq kind yk_flow_pair)
-  && (fix go (l : list node) : bool := match l with [] => true | c :: t => block_style c && go t end) ch.
-
 (* ---------- pnpm-workspace.yaml ---------- *)
 Definition w_catalog : bytes := [99;97;116;97;108;111;103].
 Definition w_catalogs : bytes := [99;97;116;97;108;111;103;115].
 Definition catalog_entries (v : yval) : list (bytes * bytes) :=
   match v with
-  | YMap l => flat_map (fun e => match snd e with YStr s => if beq s [] then [] else [(fst e, s)] | _ => [] end) l
+  | YMap _ l => flat_map (fun e => match snd e with YStr s => if beq s [] then [] else [(fst e, s)] | _ => [] end) l
   | _ => []
   end.
 Definition declared_pnpm (v : yval) : list (bytes * bytes) :=
   match v with
-  | YMap top =>
+  | YMap _ top =>
       flat_map (fun e => if beq (fst e) w_catalog then catalog_entries (snd e)
                          else if beq (fst e) w_catalogs then
-                           match snd e with YMap groups => flat_map (fun g => catalog_entries (snd g)) groups | _ => [] end
+                           match snd e with YMap _ groups => flat_map (fun g => catalog_entries (snd g)) groups | _ => [] end
                          else []) top
   | _ => []
   end.
-(* a key named catalog / catalogs anywhere in the value *)
-Fixpoint mentions_catalog (v : yval) : bool :=
+(* a key named [k] anywhere in the value *)
+Fixpoint mentions (k : bytes) (v : yval) : bool :=
   match v with
-  | YMap l => (fix go (l : list (bytes * yval)) : bool :=
-                 match l with [] => false | (k, x) :: t => beq k w_catalog || beq k w_catalogs || mentions_catalog x || go t end) l
-  | YSeq l => (fix go (l : list yval) : bool := match l with [] => false | x :: t => mentions_catalog x || go t end) l
+  | YMap _ l => (fix go (l : list (bytes * yval)) : bool :=
+                   match l with [] => false | (k', x) :: t => beq k' k || mentions k x || go t end) l
+  | YSeq _ l => (fix go (l : list yval) : bool := match l with [] => false | x :: t => mentions k x || go t end) l
   | _ => false
   end.
+Definition mentions_catalog (v : yval) : bool := mentions w_catalog v || mentions w_catalogs v.
 (* well-formed as a pnpm workspace file, as far as this reading goes: the catalog sections are mappings of names to
    scalars (catalogs: of group names to such mappings) *)
 Definition is_catalog (v : yval) : bool :=
-  match v with YMap l => forallb (fun e => match snd e with YStr _ => true | _ => false end) l | _ => false end.
+  match v with YMap _ l => forallb (fun e => match snd e with YStr _ => true | _ => false end) l | _ => false end.
 Definition pnpm_shape_ok (v : yval) : bool :=
   match v with
-  | YMap top => forallb (fun e => if beq (fst e) w_catalog then is_catalog (snd e)
-                                  else if beq (fst e) w_catalogs then match snd e with YMap groups => forallb (fun g => is_catalog (snd g)) groups | _ => false end
-                                  else true) top
+  | YMap _ top => forallb (fun e => if beq (fst e) w_catalog then is_catalog (snd e)
+                                    else if beq (fst e) w_catalogs then match snd e with YMap _ groups => forallb (fun g => is_catalog (snd g)) groups | _ => false end
+                                    else true) top
   | _ => true
   end.
-(* known class: the walk takes ANY key named catalog / catalogs, at any depth, for a catalog section *)
+(* known classes: the walk takes ANY key named catalog / catalogs, at any depth, for a catalog section
+   (pnpm-catalog-key-anywhere); and it does not enter flow collections (yaml-flow-collections): the top-level mapping,
+   a catalog, the catalogs mapping or one of its groups written in flow style *)
+Definition is_flow (v : yval) : bool := match v with YMap fl _ | YSeq fl _ => fl | _ => false end.
 Definition pnpm_known (v : yval) : bool :=
   match v with
-  | YMap top => existsb (fun e => negb (beq (fst e) w_catalog) && negb (beq (fst e) w_catalogs) && mentions_catalog (snd e)) top
+  | YMap fl top =>
+      fl || existsb (fun e => if beq (fst e) w_catalog then is_flow (snd e)
+                              else if beq (fst e) w_catalogs then is_flow (snd e) || match snd e with YMap _ groups => existsb (fun g => is_flow (snd g)) groups | _ => false end
+                              else mentions_catalog (snd e)) top
   | _ => mentions_catalog v
+  end.
+
+(* ---------- GitHub Actions: workflows (jobs.<id>.steps[*].uses) and composite actions (runs.steps[*].uses) ---------- *)
+Definition w_jobs : bytes := [106;111;98;115].
+Definition w_runs : bytes := [114;117;110;115].
+Definition w_steps : bytes := [115;116;101;112;115].
+Definition w_uses : bytes := [117;115;101;115].
+Definition p_local : bytes := [46;47].                                    (* ./ *)
+Definition p_docker : bytes := [100;111;99;107;101;114;58;47;47].         (* docker:// *)
+Fixpoint ysplit_on (c : N) (s : bytes) : list bytes :=
+  match s with
+  | [] => [[]]
+  | x :: t => if x =? c then [] :: ysplit_on c t
+              else match ysplit_on c t with h :: r => (x :: h) :: r | [] => [[x]] end
+  end.
+(* {owner}/{repo}[/path]@{ref}: the repository and the ref; nothing for local (./) and docker:// actions *)
+Definition uses_decl (s : bytes) : list (bytes * bytes) :=
+  if starts_with p_local s || starts_with p_docker s then []
+  else match find_char 64 s with
+       | None => []
+       | Some at_ =>
+           match ysplit_on 47 (firstn_N at_ s) with
+           | owner :: repo :: _ => [(owner ++ [47] ++ repo, skipn_N (at_ + 1) s)]
+           | _ => []
+           end
+       end.
+Definition step_uses (st : yval) : list (bytes * bytes) :=
+  match st with
+  | YMap _ sm => flat_map (fun e => if beq (fst e) w_uses then match snd e with YStr s => uses_decl s | _ => [] end else []) sm
+  | _ => []
+  end.
+Definition steps_uses (v : yval) : list (bytes * bytes) := match v with YSeq _ steps => flat_map step_uses steps | _ => [] end.
+Definition job_uses (v : yval) : list (bytes * bytes) :=
+  match v with YMap _ jm => flat_map (fun e => if beq (fst e) w_steps then steps_uses (snd e) else []) jm | _ => [] end.
+Definition declared_gha (v : yval) : list (bytes * bytes) :=
+  match v with
+  | YMap _ top => flat_map (fun e => if beq (fst e) w_jobs then match snd e with YMap _ jobs => flat_map (fun j => job_uses (snd j)) jobs | _ => [] end
+                                   else if beq (fst e) w_runs then job_uses (snd e) else []) top
+  | _ => []
+  end.
+
+(* the shape the documentation prescribes, as far as the walk can tell the difference: the only keys named "steps" are
+   jobs.<id>.steps and runs.steps, their values are sequences of mappings, and inside a step the only key named "uses"
+   is the step's own *)
+Definition step_regular (st : yval) : bool :=
+  match st with
+  | YMap _ sm => forallb (fun e => negb (beq (fst e) w_steps) && negb (mentions w_steps (snd e)) && negb (mentions w_uses (snd e))) sm
+  | o => negb (mentions w_steps o) && negb (mentions w_uses o)
+  end.
+Definition steps_regular (v : yval) : bool :=
+  match v with YSeq _ steps => forallb step_regular steps | o => negb (mentions w_steps o) && negb (mentions w_uses o) end.
+Definition job_regular (v : yval) : bool :=
+  match v with
+  | YMap _ jm => forallb (fun e => if beq (fst e) w_steps then steps_regular (snd e) else negb (mentions w_steps (snd e))) jm
+  | o => negb (mentions w_steps o)
+  end.
+Definition gha_regular (v : yval) : bool :=
+  match v with
+  | YMap _ top => forallb (fun e => if beq (fst e) w_jobs then
+                                    match snd e with
+                                    | YMap _ jobs => forallb (fun j => negb (beq (fst j) w_steps) && job_regular (snd j)) jobs
+                                    | o => negb (mentions w_steps o)
+                                    end
+                                  else if beq (fst e) w_runs then job_regular (snd e)
+                                  else negb (beq (fst e) w_steps) && negb (mentions w_steps (snd e))) top
+  | o => negb (mentions w_steps o)
+  end.
+(* known classes: gha-docker-and-local-refs (a local or docker action whose text contains '/' and '@' is read as
+   owner/repo@ref) and yaml-flow-collections (the mapping / sequence on the way to a step written in flow style) *)
+Definition uses_known (s : bytes) : bool := (starts_with p_local s || starts_with p_docker s) && has_byte 64 s.
+Definition step_known (st : yval) : bool :=
+  match st with
+  | YMap fl sm => fl || existsb (fun e => beq (fst e) w_uses && match snd e with YStr s => uses_known s | _ => false end) sm
+  | _ => false
+  end.
+Definition job_known (v : yval) : bool :=
+  match v with
+  | YMap fl jm => fl || existsb (fun e => beq (fst e) w_steps && match snd e with YSeq fl' steps => fl' || existsb step_known steps | _ => false end) jm
+  | _ => false
+  end.
+Definition gha_known (v : yval) : bool :=
+  match v with
+  | YMap fl top => fl || existsb (fun e => (beq (fst e) w_jobs && match snd e with YMap fl' jobs => fl' || existsb (fun j => job_known (snd j)) jobs | _ => false end)
+                                          || (beq (fst e) w_runs && job_known (snd e))) top
+  | _ => false
   end.
